@@ -3,4 +3,4 @@
 cd "$(dirname "$0")/lean" || exit 2
 T=""; for i in 01 02 03 04 05 06 07 08 09 10 11 12 13 14 15 16 17 18 19 20; do T="$T DarkluaModel.C$i.Thm"; done
 lake build $T dlv-model DarkluaModel.Shared.VisitorSoundHeapU DarkluaModel.Shared.VisitorSoundHeapV DarkluaModel.Shared.VisitorSoundCompose 2>&1 | grep -E "error|Build completed" | head -20
-lake env lean Audit/All.lean 2>&1 | tail -3
+lake env lean AuditAll.lean 2>&1 | tail -3
